@@ -137,6 +137,10 @@ def run_one(text, timeout=TIMEOUT, want_all=False):
                     ans = out[0].strip() if out else "unknown"
                     if ans not in ("sat", "unsat"):
                         ans = "unknown"
+                    if ans == "sat" and name.startswith("z3-4") and "(lambda" in text:
+                        # z3 4.8.12 does not treat lambda terms extensionally: it reports `sat` on valid goals that need
+                        # (lambda x. t) = (lambda x. t') from t = t' (observed on dict-restriction terms).  Its `unsat` is kept.
+                        ans = "unknown"
                     results.append((name, ans, time.time() - t1))
                     pending.remove(item)
                     if ans in ("sat", "unsat"):
@@ -168,7 +172,9 @@ def discharge(obligations, jobs=None, want_all=False):
     jobs = jobs or int(os.environ.get("PYVC_JOBS", "6"))
     texts = [query_text(ob) for ob in obligations]
     with ThreadPoolExecutor(max_workers=jobs) as pool:
-        outs = list(pool.map(lambda t: run_one(t, want_all=want_all), texts))
+        # covers (satisfiability of a path condition) are vacuity guards with a native-witness fallback: a shorter budget suffices
+        cover_t = int(os.environ.get("PYVC_COVER_TIMEOUT", "25"))
+        outs = list(pool.map(lambda p: run_one(p[0], timeout=(cover_t if p[1].expect_sat else TIMEOUT), want_all=want_all), zip(texts, obligations)))
     for ob, (verdict, backend, secs, details) in zip(obligations, outs):
         ob.backend, ob.time, ob.details = backend, secs, details
         if verdict == "inconsistent":
